@@ -108,14 +108,12 @@ def exempt : List (Loc × String) := [
   (F.«rtsp.BaseInSession.videoRtpConn», "signalling"),
   (F.«rtsp.BaseInSession.videoUnpacker», "signalling"),
   (F.«rtsp.BaseOutSession.audioRtcpChannel», "signalling"),
-  (F.«rtsp.BaseOutSession.audioRtcpConn», "signalling"),
   (F.«rtsp.BaseOutSession.audioRtpChannel», "signalling"),
   (F.«rtsp.BaseOutSession.audioRtpConn», "signalling"),
   (F.«rtsp.BaseOutSession.sdpCtx», "signalling"),
   (F.«rtsp.BaseOutSession.loggedWriteAudioRtpCount», "perObject"),
   (F.«rtsp.BaseOutSession.loggedWriteVideoRtpCount», "perObject"),
   (F.«rtsp.BaseOutSession.videoRtcpChannel», "signalling"),
-  (F.«rtsp.BaseOutSession.videoRtcpConn», "signalling"),
   (F.«rtsp.BaseOutSession.videoRtpChannel», "signalling"),
   (F.«rtsp.BaseOutSession.videoRtpConn», "signalling"),
   (F.«rtsp.ServerCommandSession.describeSeq», "publish"),
